@@ -22,4 +22,6 @@ for pid, spec in props_text.SPECS.items():
     SPECS[pid] = (spec, props_text.GROUP)
 for pid, spec in props_cli.SPECS.items():
     SPECS[pid] = (spec, props_cli.GROUP)
+# C04's element-access clause also covers the generic traits of Matrix/Vector (harness group lin)
+props_alg.SPECS['C04']['extra'] = list(props_alg.SPECS['C04'].get('extra', [])) + [(dict(props_lin.GROUP, replay_prefix='m '), props_lin.gen_datum)]
 NOT_CLAIMED = {}
